@@ -16,7 +16,9 @@ pub const BINOPS: &[(&str, &str, u8)] = &[
   ("∪", "union", 7), ("∩", "inter", 7), ("∖", "diff", 7), ("Δ", "symdiff", 7), ("⊆", "subset", 7), ("⊇", "superset", 7),
   ("⊊", "psubset", 7), ("⊋", "psuperset", 7), ("∈", "elem", 7), ("∉", "notelem", 7),
   // the matrix operators share level 4 with * / %
-  ("**", "matmul", 4), ("·", "dot", 4), ("⨯", "cross", 4), ("\\", "solve", 4)];
+  ("**", "matmul", 4), ("·", "dot", 4), ("⨯", "cross", 4), ("\\", "solve", 4),
+  // strict equality and inequality, comparisons of level 2
+  ("=:=", "seq", 2), ("=!=", "sne", 2)];
 
 /// operands of table and set operators are the names of this prelude (evaluated before the formula)
 const PRELUDE: &str = "sa := {1, 2, 3}\nsb := {2, 3}\nsc := {3}\nsd := {1, 4}\nta := |x<u8> y<u8>| 1 2 | 3 4 |\ntb := |x<u8> z<u8>| 1 5 | 7 8 |\ntc := |x<u8> w<u8>| 3 9 | 1 6 |\nma := [1 2; 3 4]\nmb := [0 1; 1 1]\nmc := [2 0; 1 3]\nva := [1 2 3]\nvb := [4 5 6]\nvc := [7 8 10]\n";
@@ -29,7 +31,7 @@ fn op_name(op: &FormulaOperator) -> String {
     FormulaOperator::Power(_) => "pow",
     FormulaOperator::Vec(v) => match v { VecOp::MatMul => "matmul", VecOp::Dot => "dot", VecOp::Cross => "cross", VecOp::Solve => "solve" },
     FormulaOperator::Comparison(c) => match c { ComparisonOp::Equal => "eq", ComparisonOp::NotEqual => "ne", ComparisonOp::LessThan => "lt",
-      ComparisonOp::LessThanEqual => "le", ComparisonOp::GreaterThan => "gt", ComparisonOp::GreaterThanEqual => "ge", _ => "cmp?" },
+      ComparisonOp::LessThanEqual => "le", ComparisonOp::GreaterThan => "gt", ComparisonOp::GreaterThanEqual => "ge", ComparisonOp::StrictEqual => "seq", ComparisonOp::StrictNotEqual => "sne", _ => "cmp?" },
     FormulaOperator::Logic(l) => match l { LogicOp::And => "and", LogicOp::Or => "or", LogicOp::Xor => "xor", LogicOp::Not => "not" },
     FormulaOperator::Table(t) => match t { TableOp::InnerJoin => "join", TableOp::LeftOuterJoin => "ljoin", TableOp::RightOuterJoin => "rjoin",
       TableOp::FullOuterJoin => "fjoin", TableOp::LeftSemiJoin => "semi", TableOp::LeftAntiJoin => "anti" },
